@@ -62,6 +62,7 @@ pub fn classify(msg: &str) -> String {
 thread_local! {
     static LAST: RefCell<Option<PanicRecord>> = const { RefCell::new(None) };
     static QUIET: RefCell<bool> = const { RefCell::new(true) };
+    static DEPTH: RefCell<u32> = const { RefCell::new(0) };
 }
 
 static INIT: Once = Once::new();
@@ -112,7 +113,7 @@ pub fn install() {
                 .map(|l| (l.file().to_string(), l.line()))
                 .unwrap_or_default();
             let function = in_repo_function();
-            let quiet = QUIET.with(|q| *q.borrow());
+            let quiet = QUIET.with(|q| *q.borrow()) && DEPTH.with(|d| *d.borrow()) > 0;
             if !quiet {
                 eprintln!("PANIC {message} at {file}:{line} in {function}");
             }
@@ -136,7 +137,10 @@ pub fn set_quiet(q: bool) {
 pub fn catch<T>(f: impl FnOnce() -> T) -> Result<T, PanicRecord> {
     install();
     LAST.with(|l| *l.borrow_mut() = None);
-    match std::panic::catch_unwind(AssertUnwindSafe(f)) {
+    DEPTH.with(|d| *d.borrow_mut() += 1);
+    let r = std::panic::catch_unwind(AssertUnwindSafe(f));
+    DEPTH.with(|d| *d.borrow_mut() -= 1);
+    match r {
         Ok(v) => Ok(v),
         Err(_) => Err(LAST.with(|l| l.borrow_mut().take()).unwrap_or(PanicRecord {
             message: "<panic not recorded>".into(),
